@@ -176,15 +176,23 @@ func (ex *Exec) nondetBytes(s *State, name string, n int, kind string) Agg {
 			conc = make([]byte, n)
 		}
 	}
+	var wide *Term
+	if conc == nil && kind == "digest" && n > 0 {
+		// one wide variable; bytes are its big-endian slices (keeps hash inputs compact)
+		wide = ex.tt.Var(smt, 8*n)
+	}
 	for i := 0; i < n; i++ {
-		if conc != nil {
+		switch {
+		case conc != nil:
 			terms[i] = ex.tt.BV(uint64(conc[i]), 8)
-		} else {
+		case wide != nil:
+			terms[i] = ex.tt.Extract(wide, 8*(n-i)-1, 8*(n-i-1))
+		default:
 			terms[i] = ex.tt.Var(fmt.Sprintf("%s_b%d", smt, i), 8)
 		}
 		arr[i] = terms[i]
 	}
-	s.inputs = append(s.inputs, Input{Key: key, Kind: kind, Terms: terms})
+	s.inputs = append(s.inputs, Input{Key: key, Kind: kind, Terms: terms, Wide: wide})
 	return arr
 }
 
@@ -292,6 +300,26 @@ func inAssert(ex *Exec, c *callCtx) (Value, bool) {
 	}
 	want := ex.wantTerms(c.s)
 	r, model := ex.sol.CheckModel(c.s.pc, []*Term{ex.tt.Not(t)}, want)
+	if r == Unknown {
+		// portfolio: retry the assertion query on the other back ends, longer timeout
+		for _, alt := range []string{"cvc5", "z3-new", "z3"} {
+			if alt == ex.sol.Kind {
+				continue
+			}
+			as, err := NewSolver(alt, ex.tt, 3*ex.lim.TimeoutMs)
+			if err != nil {
+				continue
+			}
+			r2, m2 := as.CheckModel(c.s.pc, []*Term{ex.tt.Not(t)}, want)
+			ex.sol.Time += as.Time
+			as.Close()
+			ex.Stats.Portfolio++
+			if r2 != Unknown {
+				r, model = r2, m2
+				break
+			}
+		}
+	}
 	switch r {
 	case Unsat:
 		ex.Stats.AssertHeld++
@@ -395,6 +423,49 @@ func (ex *Exec) hashAxioms(h HashApp) []*Term {
 	return ax
 }
 
+// HashAxiomMode selects the collision-freedom encoding: "inv" (left inverse + length tag,
+// linear), "pair" (pairwise injectivity instances, quadratic) or "both".
+var HashAxiomMode = "pair"
+
+// addHashApp records a hash application on the path with its collision-freedom axioms.
+func (ex *Exec) addHashApp(s *State, h HashApp) {
+	if HashAxiomMode != "pair" {
+		for _, ax := range ex.hashAxioms(h) {
+			s.addPC(ax)
+		}
+	}
+	if HashAxiomMode != "inv" {
+		for _, o := range s.hashes {
+			s.addPC(ex.pairAxiom(o, h))
+		}
+	}
+	// no hash cycles: every whole digest embedded in the input ranks below the output
+	if len(h.In) >= 32 {
+		x := ex.tt.Concat(append([]*Term(nil), h.In...)...)
+		rh := ex.tt.UF("sha256rank", 16, h.App)
+		for _, sg := range segsOf(x) {
+			p := sg.t
+			if p != nil && p.W == 256 && (p.Op == OpVar || p.Op == OpUF) {
+				s.addPC(ex.tt.Cmp(OpULt, ex.tt.UF("sha256rank", 16, p), rh))
+			}
+		}
+	}
+	s.hashes = append(s.hashes, h)
+}
+
+func (ex *Exec) pairAxiom(a, b HashApp) *Term {
+	tt := ex.tt
+	if len(a.In) != len(b.In) {
+		return tt.Not(tt.Eq(a.App, b.App))
+	}
+	if len(a.In) == 0 {
+		return tt.True
+	}
+	x := tt.Concat(append([]*Term(nil), a.In...)...)
+	y := tt.Concat(append([]*Term(nil), b.In...)...)
+	return tt.Implies(tt.Eq(a.App, b.App), tt.Eq(x, y))
+}
+
 // hashBytes applies the collision-free SHA-256 model to concrete-length input bytes.
 func (ex *Exec) hashBytes(s *State, in []*Term) Agg {
 	tt := ex.tt
@@ -429,11 +500,7 @@ func (ex *Exec) hashBytes(s *State, in []*Term) Agg {
 		}
 	}
 	if !known {
-		h := HashApp{App: app, In: append([]*Term(nil), in...)}
-		s.hashes = append(s.hashes, h)
-		for _, ax := range ex.hashAxioms(h) {
-			s.addPC(ax)
-		}
+		ex.addHashApp(s, HashApp{App: app, In: append([]*Term(nil), in...)})
 	}
 	for i := range out {
 		out[i] = tt.Extract(app, 255-8*i, 248-8*i)
